@@ -11,6 +11,7 @@ import (
 //	follower     s.config.followHost() != ""
 //	readonly     s.config.readOnly()
 //	caughtup     s.caughtUpOnce()
+//	caughtuplive s.caughtUp()
 //	requirepass  s.config.requirePass() != ""
 //	authd        client.authd
 //	msgauth      msg.Auth != ""
@@ -129,6 +130,8 @@ func (c *Ctx) serverScenario(vals map[string]byte, cmd string, generic bool) Sce
 						return get("readonly", false)
 					case srvCall(x, "caughtUpOnce"):
 						return get("caughtup", false)
+					case srvCall(x, "caughtUp"):
+						return get("caughtuplive", false)
 					}
 					if se, ok := ast.Unparen(x.Fun).(*ast.SelectorExpr); ok && se.Sel.Name == "Load" && loaded != nil && selField(info, se.X) == loaded {
 						return get("loaded", false)
